@@ -98,11 +98,11 @@ def key_of(name, order):
     return order + name
 
 
-def L(atoms, inter=(), removed=(), edges=(), non_edges=(), patterns=(), molmeta=None, attrs=None, replace=None, label=''):
+def L(atoms, inter=(), removed=(), edges=(), non_edges=(), patterns=(), molmeta=None, attrs=None, replace=None, label='', secmeta=None):
     """atoms: list of (name, order[, attr dict])."""
     return {'atoms': [(a[0], a[1], (a[2] if len(a) > 2 else {})) for a in atoms], 'inter': list(inter), 'removed': list(removed),
             'edges': list(edges), 'non_edges': list(non_edges), 'patterns': list(patterns), 'molmeta': molmeta or {},
-            'attrs': attrs or {}, 'replace': replace or {}, 'label': label}
+            'attrs': attrs or {}, 'replace': replace or {}, 'label': label, 'secmeta': secmeta or {}}
 
 
 def grammar():
@@ -162,6 +162,11 @@ def grammar():
     # interaction metadata: conditional / grouped bond, and removals that name a version
     links.append(L([('BB', 0), ('BB', 1)], inter=[bond(0, 1, '0.36', {'ifdef': 'FLEXIBLE', 'group': 'Backbone bonds'})], label='bond under ifdef + group'))
     links.append(L([('BB', 0), ('BB', 1)], inter=[bond(0, 1, '0.37', {'comment': 'stiff'})], label='bond with comment'))
+    # a #meta default for the section and a line that sets the same key differently: the line wins
+    links.append(L([('BB', 0), ('BB', 1), ('BB', 2)], inter=[bond(0, 1, '0.31', {'edge': True}), bond(0, 2, '0.62')],
+                   edges=[(1, 2)], secmeta={'bonds': {'edge': False, 'group': 'long range'}}, label='#meta edge false, one line edge true'))
+    links.append(L([('BB', 0), ('BB', 1)], inter=[bond(0, 1, '0.32', {'group': 'own group', 'version': 1})],
+                   secmeta={'bonds': {'group': 'section group', 'version': 2}}, label='#meta group/version overridden on the line'))
     links.append(L([('BB', 0), ('BB', 1)], removed=[('bonds', (0, 1), [], {'version': 2})], edges=[(0, 1)], label='!bonds version 2 only'))
     links.append(L([('BB', 0), ('BB', 1)], removed=[('bonds', (0, 1), [], {'ifdef': 'FLEXIBLE'})], edges=[(0, 1)], label='!bonds under ifdef only'))
     links.append(L([('BB', 0), ('SC1', 0, {'resname': 'GLY'})], replace={1: {'atomname': None}}, edges=[(0, 1)], label='delete SC1 of GLY'))
@@ -189,6 +194,8 @@ def render(link):
             by_type.setdefault(item[0], []).append(item)
         for typ, lst in by_type.items():
             lines.append('[ %s%s ]' % (prefix, typ))
+            if not prefix and typ in link.get('secmeta', {}):
+                lines.append('#meta %s' % json_dumps(link['secmeta'][typ]))
             for item in lst:
                 atoms = ' '.join(keys[i] for i in item[1])
                 params = ' '.join(render_param(p, keys) for p in item[2])
@@ -294,9 +301,17 @@ def attr_ok(node, key, want):
     return node.get(key) == want
 
 
+def effective_meta(link, typ, meta):
+    """What is written on the interaction line itself wins over the #meta default of its section."""
+    out = dict(link.get('secmeta', {}).get(typ, {}))
+    out.update(meta)
+    return out
+
+
 def link_edges(link):
     edges = {frozenset(e) for e in link['edges']}
     for typ, atoms, _, meta in link['inter']:
+        meta = effective_meta(link, typ, meta)
         if typ in ('bonds', 'angles', 'dihedrals', 'constraints', 'cmap') and meta.get('edge', True):
             for a, b in zip(atoms[:-1], atoms[1:]):
                 edges.add(frozenset((a, b)))
@@ -397,6 +412,7 @@ def apply_links(state, links):
                         del state['inter'][pos]
                         break
             for typ, atoms, params, meta in link['inter']:
+                meta = effective_meta(link, typ, meta)
                 target = tuple(combo[i] for i in atoms)
                 values = [ref_param(p, combo, state['nodes']) for p in params]
                 version = meta.get('version', 0)
